@@ -537,6 +537,176 @@ func explore(sys actor.ActorSystem, runs, nprod, nmsgs int, seed int64, w *vtrac
 	w.Raw(map[string]any{"ev": "New", "id": 0, "g": 0, "t": ""})
 }
 
+// ---------------------------------------------------------------- explore-grain: the same random scheduler on a GRAIN
+//
+// C01 also covers grains (grainPID has its own copy of the turn machine and its own mailbox). The grain's
+// callbacks are gated like the actor's handler; turn.* events come from the grain hooks. failDeact makes
+// OnDeactivate fail, which leaves the grain registered but inactive so that the next TellGrain re-activates
+// it in place (the only way a grainPID is activated twice); with a short deactivate-after the explorer
+// sometimes holds a worker inside OnReceive long enough for the passivation manager to fire.
+type testGrain struct {
+	r         *recorder
+	failDeact bool
+}
+
+func (g *testGrain) OnActivate(context.Context, *actor.GrainProps) error { g.r.ev("prestart", 0); return nil }
+func (g *testGrain) OnDeactivate(context.Context, *actor.GrainProps) error {
+	g.r.ev("gdeact", 0)
+	if g.failDeact {
+		return fmt.Errorf("state store unavailable")
+	}
+	return nil
+}
+func (g *testGrain) OnReceive(ctx *actor.GrainContext) {
+	m, ok := ctx.Message().(*Msg)
+	if !ok {
+		ctx.Unhandled()
+		return
+	}
+	g.r.yield("h.enter", m.ID)
+	g.r.ev("enter", m.ID)
+	g.r.yield("h.exit", m.ID)
+	g.r.ev("exit", m.ID)
+	ctx.NoErr()
+}
+
+func exploreGrain(sys actor.ActorSystem, runs, nprod, nmsgs int, seed int64, w *vtrace.Writer, failDeact bool, st *stats) {
+	ctx := context.Background()
+	rng := rand.New(rand.NewSource(seed))
+	rec := &recorder{w: w}
+	for run := 0; run < runs; run++ {
+		w.Raw(map[string]any{"ev": "New", "id": 0, "g": 0, "t": "", "at": "", "on": ""})
+		g := &testGrain{r: rec, failDeact: failDeact}
+		opts := []actor.GrainOption{}
+		if failDeact {
+			opts = append(opts, actor.WithGrainDeactivateAfter(120*time.Millisecond))
+		}
+		identity, err := sys.GrainIdentity(ctx, fmt.Sprintf("g%d-%d", seed, run), func(context.Context) (actor.Grain, error) { return g, nil }, opts...)
+		if err != nil {
+			fatal("grain identity", err)
+		}
+		s := sched.New()
+		s.Watchdog = 2 * time.Second
+		s.Control(actor.VerifGrainSchedStateOf(sys, identity))
+		s.AdoptAt("ds.take.cas", "t")
+		s.DetachAt("turn.end")
+		s.SkipPoints("turn.begin", "turn.release")
+		s.Obs = func(thread, point string, obj any, a, bb int64) {
+			switch point {
+			case "turn.begin":
+				w.Emit(map[string]any{"ev": "begin", "id": int(a), "g": 0, "t": thread})
+			case "turn.release":
+				w.Emit(map[string]any{"ev": "release", "id": int(a), "g": 0, "t": thread})
+			}
+		}
+		rec.s.Store(s)
+		var names []string
+		for p := 1; p <= nprod; p++ {
+			p := p
+			name := "p" + strconv.Itoa(p)
+			names = append(names, name)
+			s.Go(name, func() {
+				for k := 1; k <= nmsgs; k++ {
+					s.Yield("call", 0, 0)
+					id := p*10 + k
+					err := sys.TellGrain(ctx, identity, &Msg{ID: id})
+					ok := 0
+					if err == nil {
+						ok = 1
+					}
+					w.Emit(map[string]any{"ev": "tellret", "id": id, "g": ok, "t": name})
+				}
+			})
+		}
+		if failDeact {
+			w.Emit(map[string]any{"ev": "stopcall", "id": 0, "g": 0, "t": "passivation"}) // exempts the C02 drain clause
+		}
+		prio := map[string]int{}
+		for _, n := range names {
+			prio[n] = rng.Intn(1000)
+		}
+		blocked := map[string]bool{}
+		idle := 0
+		for step := 0; step < 400; step++ {
+			for {
+				n, ok := s.WaitAdopted(300 * time.Microsecond)
+				if !ok {
+					break
+				}
+				names = append(names, n)
+				prio[n] = rng.Intn(1000)
+			}
+			for n := range blocked {
+				if _, ok := s.TryAwait(n, 0); ok {
+					delete(blocked, n)
+				}
+			}
+			var cands []string
+			for _, n := range names {
+				pd, parked := s.Pending(n)
+				if !parked || pd.Done || blocked[n] {
+					continue
+				}
+				cands = append(cands, n)
+			}
+			if len(cands) == 0 {
+				idle++
+				if idle > 20 && len(blocked) == 0 {
+					break
+				}
+				time.Sleep(200 * time.Microsecond)
+				continue
+			}
+			idle = 0
+			if rng.Intn(10) == 0 {
+				prio[cands[rng.Intn(len(cands))]] = rng.Intn(1000)
+			}
+			best := cands[0]
+			for _, n := range cands {
+				if prio[n] > prio[best] {
+					best = n
+				}
+			}
+			before, _ := s.Pending(best)
+			if failDeact && before.Point == "h.exit" && rng.Intn(3) == 0 {
+				// hold the worker inside OnReceive past the deactivate-after deadline, let the others run meanwhile
+				time.Sleep(200 * time.Millisecond)
+				prio[best] = -1 - rng.Intn(1000)
+				continue
+			}
+			if err := s.Release(best); err != nil {
+				continue
+			}
+			st.Steps++
+			if _, ok := s.TryAwait(best, 30*time.Millisecond); !ok {
+				blocked[best] = true
+				continue
+			}
+			if (before.Point == "ds.reset" || before.Point == "h.enter" || before.Point == "ds.yield") && rng.Intn(2) == 0 {
+				prio[best] = -1 - rng.Intn(1000)
+			}
+		}
+		s.FreeRun()
+		s.Join(5 * time.Second)
+		deadline := time.Now().Add(10 * time.Second)
+		for time.Now().Before(deadline) && (actor.VerifGrainSchedValue(sys, identity) != 0 || actor.VerifGrainMailboxLen(sys, identity) != 0) {
+			if reg, _ := actor.VerifGrainActive(sys, identity); !reg {
+				break
+			}
+			time.Sleep(time.Millisecond)
+		}
+		q := 0
+		if reg, _ := actor.VerifGrainActive(sys, identity); !reg || (actor.VerifGrainSchedValue(sys, identity) == 0 && actor.VerifGrainMailboxLen(sys, identity) == 0) {
+			q = 1
+		}
+		w.Emit(map[string]any{"ev": "End", "id": q, "g": 0, "t": ""})
+		rec.s.Store(nil)
+		s.Close()
+		st.Behaviours++
+	}
+	w.Raw(map[string]any{"ev": "New", "id": 0, "g": 0, "t": "", "at": "", "on": ""})
+}
+
 // ---------------------------------------------------------------- stress (free-running, real workers)
 
 func newMailboxOpt(kind string) actor.SpawnOption {
@@ -731,7 +901,11 @@ func main() {
 		budget, _ := strconv.Atoi(os.Args[7])
 		mode, _ := strconv.Atoi(os.Args[8])
 		sys := mk(budget)
-		explore(sys, runs, nprod, nmsgs, seed, w, mode, st)
+		if mode >= 10 { // 10: grain, 11: grain whose OnDeactivate fails + short deactivate-after
+			exploreGrain(sys, runs, nprod, nmsgs, seed, w, mode == 11, st)
+		} else {
+			explore(sys, runs, nprod, nmsgs, seed, w, mode, st)
+		}
 		st.Events = w.Count()
 		w.Close()
 		_ = sys.Stop(ctx)
